@@ -334,7 +334,14 @@ pub fn gen_world(seed: u64) -> C12World {
         let d1 = gen_string(em.rng, false);
         let give1 = em.rng.chance(1, 2);
         let x1 = if give1 { gen_string(em.rng, false) } else { d1.clone() };
-        match em.rng.below(3) {
+        let x0 = if em.rng.chance(1, 6) { String::new() } else { x0 };
+        match em.rng.below(4) {
+            3 if !em.taken.iter().any(|t| t == "p0") => {
+                // `-A name` without a value: taken from the environment
+                tla_args.push(if em.rng.chance(1, 2) { "-A".into() } else { "--tla-str".into() });
+                tla_args.push("p0".into());
+                em.env.push(("p0".into(), x0.clone()));
+            }
             0 => {
                 tla_args.push("--tla-str".into());
                 tla_args.push(format!("p0={x0}"));
@@ -530,16 +537,27 @@ pub fn gen_world(seed: u64) -> C12World {
         argv.push("--no-trailing-newline".into());
     }
     if em.rng.chance(1, 5) {
-        argv.push("-s".into());
-        argv.push("1000".into());
+        argv.push(if em.rng.chance(1, 2) { "-s".into() } else { "--max-stack".into() });
+        argv.push((*em.rng.pick(&["1000", "400", "250"])).to_string());
     }
-    if em.rng.chance(1, 5) {
-        argv.push("-t".into());
-        argv.push("7".into());
+    if em.rng.chance(1, 3) {
+        // the trace budget shapes the diagnostic only: exit status and stdout never depend on it
+        argv.push(if em.rng.chance(1, 2) { "-t".into() } else { "--max-trace".into() });
+        argv.push((*em.rng.pick(&["0", "1", "2", "3", "4", "7", "100"])).to_string());
     }
     argv.extend(em.args.iter().cloned());
     argv.extend(tla_args);
     argv.extend(extra_flags);
+    if em.rng.chance(1, 5) {
+        // a variable that arrives through the ENVIRONMENT (`-V name` without a value) - also when it is the empty
+        // string, which is a value like any other
+        let val = if em.rng.chance(1, 2) { String::new() } else { gen_string(em.rng, false).replace('\0', "") };
+        argv.push(if em.rng.chance(1, 2) { "-V".into() } else { "--ext-str".into() });
+        argv.push("envk".into());
+        em.env.push(("envk".into(), val.clone()));
+        body = format!("if std.extVar(\"envk\") == {} then ({body}) else error \"ext var envk arrived changed\"", Emit::lit(&Json::Str(val)));
+        em.used_kinds.push("ext-str-env");
+    }
     let mut stdin = None;
     if matches!(mode.input, InputKind::File | InputKind::Stdin) && em.rng.chance(1, 10) {
         // a program of several read-buffer sizes (it arrives in more than one read; a comment does not change its value)
